@@ -111,21 +111,38 @@ def main():
     if payload.get('configs'):
         cfgs = payload['configs']
     else:
-        n = int(payload.get('n', 204 if quick else 4000))
+        n = int(payload.get('n', 408 if quick else 4000))
         cfgs = M.matrix(n, focus, timeout)
         cfgs += M.hunts(quick, focus, timeout)
     for k, w in enumerate(payload.get('witnesses') or []):      # recorded witnesses of known findings: re-run every time
         cfgs.append(dict(w, id='witness-%d' % k, timeout=float(w.get('timeout', timeout))))
     results = run_pool(cfgs, procs)
     # soft timeouts may be caused by machine load: confirm each once, alone, with a longer limit
-    retry = [i for i, r in enumerate(results) if r['stats'].get('status') in ('timeout', 'killed')]
+    retry_all = [i for i, r in enumerate(results) if r['stats'].get('status') in ('timeout', 'killed')]
     flaky = 0
-    if retry:
+    if retry_all:
+        # per hang key: confirm the three smallest configurations; if none confirms, every timeout of that key is dropped as load-induced
+        groups = {}
+        for i in retry_all:
+            k = tuple(sorted((v['property'], v['key']) for v in results[i]['violations'] if 'nonterminating' in v['key'] or v['key'] == 'hard-timeout'))
+            groups.setdefault(k, []).append(i)
+        retry = []
+        for k, idx in sorted(groups.items()):
+            retry += sorted(idx, key=lambda i: M.size(cfgs[i]))[:3]
         again = run_pool([dict(cfgs[i], timeout=2 * float(cfgs[i].get('timeout', timeout))) for i in retry], max(1, procs // 2))
+        confirmed = set()
         for i, r in zip(retry, again):
-            if r['stats'].get('status') not in ('timeout', 'killed'):
+            if r['stats'].get('status') in ('timeout', 'killed'):
+                confirmed.add(next(k for k, idx in groups.items() if i in idx))
+            else:
                 flaky += 1
                 results[i] = r
+        for k, idx in groups.items():
+            if k not in confirmed:
+                for i in idx:
+                    if results[i]['stats'].get('status') in ('timeout', 'killed'):
+                        flaky += 1
+                        results[i] = {'violations': [], 'stats': {'status': 'flaky-timeout'}}
     # aggregate
     by = {}
     cov = {'configurations': len(cfgs), 'objective_calls': 0, 'hook_calls': 0, 'records': 0, 'uniform_calls': 0, 'normal_calls': 0, 'choice_calls': 0,
